@@ -13,7 +13,9 @@ Contract that is checked (nothing more):
     `remove_object` / `update_object` find everything);
   * no index list contains an object that is not in `objects`.
 Call it when the table is quiescent (after a transaction / after a report has been processed). It takes the table's
-lock, costs a few hundred key-function calls for a typical MDIB (< 1 ms) and returns [] when everything agrees.
+lock, costs a few hundred key-function calls (about 3 ms for all three tables of a 100-descriptor MDIB) and returns []
+when everything agrees. `mdib_problems(mdib, name)` does it for the three tables of a provider or consumer MDIB;
+`table_problem_items` / `mdib_problem_items` give (`<table>.<index>`, message) pairs with a stable first component.
 """
 from __future__ import annotations
 
